@@ -496,9 +496,17 @@ func genRawEntries(r *rand.Rand, n int, versioned bool) string {
 	prefix := []string{"", "a", "key-", "key-000", "user:", "\x00\x01", "k@"}[r.Intn(7)]
 	for i := 0; i < n; i++ {
 		var k string
-		switch r.Intn(6) {
+		switch r.Intn(7) {
 		case 0:
 			k = prefix
+		case 2:
+			// multi-byte UTF-8 runes that share their lead bytes and differ in a continuation byte only (a prefix length
+			// computed by ranging over the string as runes instead of bytes over- or under-counts on these: seeded change C11-q)
+			runes := []string{"\u00e9", "\u00e8", "\u00ea", "\u65e5", "\u65e6", "\u65a5", "\U0001f600", "\U0001f601", "\U0001f641", "\xc3", "\xe6\x97"}
+			k = prefix + "caf"
+			for j := 1 + r.Intn(3); j > 0; j-- {
+				k += runes[r.Intn(len(runes))]
+			}
 		case 1:
 			b := make([]byte, r.Intn(5))
 			for j := range b {
